@@ -252,6 +252,7 @@ def main():
                            "F4 the fault-free run is deterministic",
                            "F5 after a run in which a fault fired, the fault-free run still returns the same outcome",
                            "A1 an argument handed to the callable is not changed afterwards - not after the driver returned, not by later driver calls",
+                           "A2 the object the callable returned is not changed by the driver",
                            "R1 re-entrancy: an inner call of the same driver from inside the callable changes neither the outer outcome nor its own"],
             "residue_checks": st.get("residue_checks", 0), "arguments_retained_and_rechecked": st.get("arguments_retained_and_rechecked", 0),
             "known_findings_hit": known_hit,
